@@ -231,6 +231,15 @@ class ModuleSweep:
         ex = explore(f, lambda ctx: [raw_input()], n, budget=4000 if self.tier == 'quick' else 20000,
                      time_limit=min(45 if self.tier == 'quick' else 600, max(5, self.time_limit - (time.time() - self.t0))),
                      kwargs=opts, long_bound=self.nmax, on_path=on_path, on_restart=lambda: counts.update(paths=0, acc=0))
+        if ex.status in ('budget', 'timeout') and self.time_limit - (time.time() - self.t0) > 8:
+            # the unit is undecided whatever happens next; a short second pass takes the other side of every fork first, so
+            # that what the first pass never reached (it spent its budget on one side of an early fork) still gets examined
+            ex2 = explore(f, lambda ctx: [raw_input()], n, budget=400 if self.tier == 'quick' else 3000,
+                          time_limit=min(12 if self.tier == 'quick' else 120, max(3, self.time_limit - (time.time() - self.t0))),
+                          kwargs=opts, long_bound=self.nmax, on_path=on_path, on_restart=lambda: None, prefer=False)
+            ex.checks += ex2.checks
+            ex.fast += ex2.fast
+            ex.unknowns += ex2.unknowns
         self.stats['paths'] += counts['paths']
         self.stats['checks'] += ex.checks
         self.stats['fast'] += ex.fast
